@@ -73,76 +73,82 @@ def writes(instr, isa):
 
 # ---------------------------------------------------------------- address tracking (C06 statement)
 class Tracker:
-    """per register (full name): None = unknown, or (origin register name, accumulated constant)"""
+    """C06 statement, not the code: per register FAMILY either None (unknown) or (origin family, accumulated constant), relative to
+    the register values just before the store executes.  Accounted for: constant add/sub/inc/dec of the full-width register,
+    full-width register copies (any number, resolved to the origin), AArch64 add/sub immediate into another register, pre- and
+    post-index write-back.  Anything else that writes a register of the family (incl. a narrower view) makes it unknown."""
 
-    def __init__(self):
+    def __init__(self, isa):
+        self.isa = isa
         self.state = {}
 
-    def get(self, name):
-        return self.state.get(name, (name, 0))
+    def get(self, famkey):
+        return self.state.get(famkey, (famkey, 0))
 
-    def apply(self, instr, isa, only_post=False):
-        """account for what `instr` does to registers: constant add/sub, inc/dec, register copy; pre-index before
-        and post-index after the access; anything else that writes a register makes it unknown"""
+    def full_width(self, o):
+        if self.isa == "x86":
+            n = o.name.lower()
+            return n in ("rax", "rbx", "rcx", "rdx", "rsi", "rdi", "rbp", "rsp") or (n.startswith("r") and n[1:].isdigit())
+        return (o.prefix or "x").lower() == "x"
+
+    def apply(self, instr):
+        """all register effects of `instr` (its memory accesses are evaluated by the caller BEFORE this is applied)"""
+        isa = self.isa
         mn = (instr.mnemonic or "").lower()
         ops = instr.operands or []
-        post = None
-        for o in ops:
-            if isinstance(o, MemoryOperand) and o.base is not None and isinstance(o.post_indexed, dict):
-                post = (fullname(o.base), o.post_indexed["value"])
-        if only_post:
-            if post:
-                self._bump(post[0], post[1])
-            return
         src, dst, sd = sem(instr)
-        written = [fullname(o) for o in dst + sd if isinstance(o, RegisterOperand)]
-        effect = {}
         imm = lambda o: o.value if isinstance(o, ImmediateOperand) and isinstance(o.value, int) else None
-        reg = lambda o: fullname(o) if isinstance(o, RegisterOperand) else None
+        reg = lambda o: o if isinstance(o, RegisterOperand) else None
+        effect = {}  # family -> ("bump", d) | ("copy", family, d)
         if isa == "x86":
-            base = mn.rstrip("bwlq") if mn not in ("sub", "sbb") else mn
-            if mn in ("add", "addq", "addl") and len(ops) == 2 and imm(ops[0]) is not None and reg(ops[1]):
-                effect[reg(ops[1])] = ("bump", imm(ops[0]))
-            elif mn in ("sub", "subq", "subl") and len(ops) == 2 and imm(ops[0]) is not None and reg(ops[1]):
-                effect[reg(ops[1])] = ("bump", -imm(ops[0]))
-            elif mn in ("inc", "incq", "incl") and len(ops) == 1 and reg(ops[0]):
-                effect[reg(ops[0])] = ("bump", 1)
-            elif mn in ("dec", "decq", "decl") and len(ops) == 1 and reg(ops[0]):
-                effect[reg(ops[0])] = ("bump", -1)
-            elif mn in ("mov", "movq", "movl") and len(ops) == 2 and reg(ops[0]) and reg(ops[1]):
-                effect[reg(ops[1])] = ("copy", reg(ops[0]))
+            if mn in ("add", "addq") and len(ops) == 2 and imm(ops[0]) is not None and reg(ops[1]) and self.full_width(ops[1]):
+                effect[fam(ops[1], isa)] = ("bump", imm(ops[0]))
+            elif mn in ("sub", "subq") and len(ops) == 2 and imm(ops[0]) is not None and reg(ops[1]) and self.full_width(ops[1]):
+                effect[fam(ops[1], isa)] = ("bump", -imm(ops[0]))
+            elif mn in ("inc", "incq") and len(ops) == 1 and reg(ops[0]) and self.full_width(ops[0]):
+                effect[fam(ops[0], isa)] = ("bump", 1)
+            elif mn in ("dec", "decq") and len(ops) == 1 and reg(ops[0]) and self.full_width(ops[0]):
+                effect[fam(ops[0], isa)] = ("bump", -1)
+            elif mn in ("mov", "movq") and len(ops) == 2 and reg(ops[0]) and reg(ops[1]) and self.full_width(ops[0]) and self.full_width(ops[1]):
+                effect[fam(ops[1], isa)] = ("copy", fam(ops[0], isa), 0)
         else:
-            if mn in ("add", "sub") and len(ops) == 3 and reg(ops[0]) and reg(ops[1]) and imm(ops[2]) is not None:
-                effect[reg(ops[0])] = ("copybump", reg(ops[1]), imm(ops[2]) if mn == "add" else -imm(ops[2]))
-            elif mn == "mov" and len(ops) == 2 and reg(ops[0]) and reg(ops[1]):
-                effect[reg(ops[0])] = ("copybump", reg(ops[1]), 0)
-            for o in ops:
-                if isinstance(o, MemoryOperand) and o.pre_indexed and o.base is not None and isinstance(o.offset, ImmediateOperand):
-                    effect[fullname(o.base)] = ("bump", o.offset.value)
+            if mn in ("add", "sub") and len(ops) == 3 and reg(ops[0]) and reg(ops[1]) and imm(ops[2]) is not None and self.full_width(ops[0]) and self.full_width(ops[1]):
+                effect[fam(ops[0], isa)] = ("copy", fam(ops[1], isa), imm(ops[2]) if mn == "add" else -imm(ops[2]))
+            elif mn == "mov" and len(ops) == 2 and reg(ops[0]) and reg(ops[1]) and self.full_width(ops[0]) and self.full_width(ops[1]):
+                effect[fam(ops[0], isa)] = ("copy", fam(ops[1], isa), 0)
+        wb = {}
+        for o in ops:
+            if isinstance(o, MemoryOperand) and o.base is not None:
+                if o.pre_indexed and isinstance(o.offset, ImmediateOperand) and isinstance(o.offset.value, int):
+                    wb[fam(o.base, isa)] = o.offset.value
+                elif isinstance(o.post_indexed, dict):
+                    wb[fam(o.base, isa)] = o.post_indexed.get("value") if isinstance(o.post_indexed.get("value"), int) else None
+        old = dict(self.state)
+        getold = lambda k: old.get(k, (k, 0))
+        written = [fam(o, isa) for o in dst + sd if isinstance(o, RegisterOperand)]
         for w in written:
+            if w in wb:
+                continue  # the write-back below is this register's change
             e = effect.get(w)
             if e is None:
-                if post and post[0] == w:
-                    continue
                 self.state[w] = None
             elif e[0] == "bump":
-                self._bump(w, e[1])
-            elif e[0] == "copy":
-                s_ = self.get(e[1])
-                self.state[w] = None if s_ is None else (s_[0], s_[1])
-            elif e[0] == "copybump":
-                s_ = self.get(e[1])
+                s_ = getold(w)
+                self.state[w] = None if s_ is None else (s_[0], s_[1] + e[1])
+            else:
+                s_ = getold(e[1])
                 self.state[w] = None if s_ is None else (s_[0], s_[1] + e[2])
+        for w, d in wb.items():
+            s_ = getold(w)
+            self.state[w] = None if (s_ is None or d is None) else (s_[0], s_[1] + d)
 
-    def _bump(self, name, d):
-        s_ = self.get(name)
-        self.state[name] = None if s_ is None else (s_[0], s_[1] + d)
 
-
-def same_location(store_mem, load_mem, tr):
-    """True iff load_mem (evaluated under tracker tr, which started at the store) is provably the stored location"""
+def same_location(store_mem, load_mem, tr, isa):
+    """True iff load_mem, evaluated with the register state `tr` just before the load executes, is provably the location
+    the store wrote (store address = register values before the store + its displacement; a post-indexed access uses the
+    base alone)"""
     def off(m):
-        if m.offset is None:
+        if isinstance(m.post_indexed, dict) or m.offset is None:
             return 0
         if isinstance(m.offset, ImmediateOperand) and isinstance(m.offset.value, int):
             return m.offset.value
@@ -151,8 +157,6 @@ def same_location(store_mem, load_mem, tr):
     a, b = off(store_mem), off(load_mem)
     if a is None or b is None:
         return False
-    if load_mem.pre_indexed:
-        b = 0  # the tracker has already applied the pre-index bump: the access goes to the updated base itself
     delta = b - a
     for part in ("base", "index"):
         ra, rb = getattr(store_mem, part), getattr(load_mem, part)
@@ -160,8 +164,10 @@ def same_location(store_mem, load_mem, tr):
             return False
         if ra is None:
             continue
-        st = tr.get(fullname(rb))
-        if st is None or st[0] != fullname(ra):
+        if fullname(ra).lower() != fullname(rb).lower() and not (tr.full_width(ra) and tr.full_width(rb)):
+            return False  # different views of a register: not provably the same address
+        st = tr.get(fam(rb, isa))
+        if st is None or st[0] != fam(ra, isa):
             return False
         scale = 1
         if part == "index":
@@ -195,20 +201,17 @@ def ref_edges(kernel, isa, model, flag_deps=False, mem=True):
                     if key in writes(b, isa):
                         break
             elif isinstance(d, MemoryOperand) and mem:
-                tr = Tracker()
-                tr.apply(a, isa)
-                tr.apply(a, isa, only_post=True)  # the store's own post-index write-back is seen by what follows
+                tr = Tracker(isa)
+                tr.apply(a)  # the store's own register effects (pre-/post-index write-back) are seen by what follows
                 for j in range(i + 1, len(kernel)):
                     b = kernel[j]
-                    tr.apply(b, isa)
-                    if indexed(d) and d.base is not None and fam(d.base, isa) in writes(b, isa):
-                        break
                     bs, bd, bsd = sem(b)
-                    if any(isinstance(o, MemoryOperand) and same_location(d, o, tr) for o in bs + bsd):
+                    # the load's address is formed from the register values BEFORE the load's own register writes
+                    if any(isinstance(o, MemoryOperand) and same_location(d, o, tr, isa) for o in bs + bsd):
                         edges.setdefault((i, j), set()).add(w_plain(a) + fwd)
                     if any(isinstance(o, MemoryOperand) and o == d for o in bd + bsd):
-                        break
-                    tr.apply(b, isa, only_post=True)
+                        break  # "a later store to the same operand ends the search"
+                    tr.apply(b)
     return edges
 
 
